@@ -11,6 +11,7 @@ from ..oracle import WalkOracle, Or, And, redirects_regular
 from ..harness import Query
 
 ID = 'C02'
+DEFAULT_FEATURES = True   # fast-check data is part of the graph state
 ASSUMPTIONS = [
     'graph state satisfies the representation invariant of DESIGN.md section 3 (module specifier = key, no self-redirect, distinct dependency texts, code-only graphs carry no type data)',
     'CheckJsOption::Custom is a pure predicate; logging is disabled; Url is an atom with a symbolic scheme; specifier text only matters through key equality and the attribute "lower-cased text starts with file://"',
